@@ -58,6 +58,18 @@ func checkC13(r *Run) int {
 			odd.Cfg.Sort = false
 			odd.Label += "|dash.dot"
 			cases = append(cases, odd)
+			// the target package is named like the last element of the struct package's import path
+			tw := space.Variant(c, false, true, "none")
+			tw.Group, tw.Variant = c.Label, "separate/same-base-name"
+			tw.StructImport, tw.TFPkg, tw.TFDir = "api/types", "types", "provider/types"
+			tw.Label += "|same-base-name"
+			cases = append(cases, tw)
+			// dotted proto package: protoc-gen-gogo names the struct package <id>_v1; target package with an underscore
+			dp := space.Variant(c, false, true, "none")
+			dp.Group, dp.Variant = c.Label, "separate/dotted-proto-package"
+			dp.ProtoPkgSuffix, dp.TFPkg = ".v1", "tf_schema"
+			dp.Label += "|dotted-proto-package"
+			cases = append(cases, dp)
 		}
 	}
 	evaluate := func(cases []*space.Case, modName string) {
@@ -99,9 +111,9 @@ func checkC13(r *Run) int {
 			if !strings.Contains(src, " \""+imp+"\"") {
 				r.addFinding(&Finding{Property: r.ID, Kind: "struct-package-not-imported-at-configured-path", Shape: shape, Label: b.Label, Msg: "generated file does not import " + imp + " under a qualifier", Count: 1, Witness: witnessOf(b)})
 			}
-			if !strings.HasPrefix(strings.TrimSpace(afterLicense(src)), "package tfschema") {
+			if !strings.HasPrefix(strings.TrimSpace(afterLicense(src)), "package "+scratch.TFPkg(b.Case)) {
 				// the package clause is decided by C01; here only the target package
-				r.addFinding(&Finding{Property: r.ID, Kind: "wrong-target-package", Shape: shape, Label: b.Label, Msg: "generated file does not declare package tfschema", Count: 1, Witness: witnessOf(b)})
+				r.addFinding(&Finding{Property: r.ID, Kind: "wrong-target-package", Shape: shape, Label: b.Label, Msg: "generated file does not declare package " + scratch.TFPkg(b.Case), Count: 1, Witness: witnessOf(b)})
 			}
 		}
 		lines, errs := r.Mod.RunHarness(bin, 16, []string{"--prop", "DIGEST", "--tier", "quick"}, 1200)
